@@ -20,6 +20,7 @@ import (
 	"encoding/json"
 	"fmt"
 	"io"
+	"sort"
 	"strings"
 	"sync"
 	"time"
@@ -189,6 +190,17 @@ func manifestEntriesToSegments(prefix string, entries []manifestEntry) []Segment
 		}
 		segments = append(segments, segment)
 	}
+	// Callers rely on the order the S3 lister guarantees (topic, partition, base offset):
+	// the processor loop checkpoints a partition segment by segment in listing order.
+	sort.SliceStable(segments, func(i, j int) bool {
+		if segments[i].Topic != segments[j].Topic {
+			return segments[i].Topic < segments[j].Topic
+		}
+		if segments[i].Partition != segments[j].Partition {
+			return segments[i].Partition < segments[j].Partition
+		}
+		return segments[i].BaseOffset < segments[j].BaseOffset
+	})
 	return segments
 }
 
